@@ -11,6 +11,7 @@ import BqVerif.Proofs.CircUnfoldSem
 import BqVerif.Proofs.CircUnfoldAll
 import BqVerif.Proofs.CircBatchUnfoldSem
 import BqVerif.Proofs.CircRemoveAll
+import BqVerif.Proofs.CircSlice
 /-! # C04 — Circuit editing calls have their documented effect on program order -/
 namespace BqVerif.C04
 open BqVerif.Circ
@@ -461,5 +462,62 @@ example :
     c.invB = true ∧ c.pointsOf (·.gid == 1) = [(0, 0), (1, 2), (2, 0)] ∧
       c.removeAll (·.gid == 1) = ⟨[2, 2, 2], [[⟨6, [], [0, 1], [2, 2]⟩], [⟨2, [], [1], [2]⟩]]⟩ ∧
       c.removeAll (·.gid == 9) = c := by decide
+
+/-- **get_slice: the timelines of the slice.**  `get_slice(points)` selects the operations found
+at the (normalised) points — duplicates of one operation collapse — and re-appends them, by cycle,
+on the sorted set `qs` of the qudits they touch.  For a successful call: `sel` holds exactly the
+`(cycle, operation)` pairs addressed by some point; `qs` is strictly increasing and holds exactly
+the qudits of the selected operations; the slice has the radixes of `qs`; and **on its `j`-th qudit
+the slice holds the source timeline of qudit `qs[j]` (`timelineIdx`, whose operations are
+`timeline qs[j]` under `Inv`, `C05_first_last_point`) restricted to the selected operations — same
+operations, same order — relabelled to the slice's numbering**; beyond `qs` it is empty. -/
+theorem C04_slice_timeline (c : Circ) (hinv : c.Inv) (pts : List (Int × Int)) (s : Circ)
+    (h : c.getSlice pts = .ok s) :
+    let npts := pts.map (fun p => (normIdx c.numCycles p.1, normIdx c.numQudits p.2))
+    let sel := c.selected npts
+    let qs := sliceQudits (sel.map (·.2))
+    (∀ k o, (k, o) ∈ sel ↔ k < c.numCycles ∧ ∃ q, (k, q) ∈ npts ∧ c.cell k q = some o) ∧
+    qs.Pairwise (· < ·) ∧ (∀ q, q ∈ qs ↔ ∃ x ∈ sel, q ∈ x.2.loc) ∧
+    s.radixes = qs.map (c.radixes.getD · 0) ∧
+    (∀ j (hj : j < qs.length), s.timeline j =
+      (((c.timelineIdx qs[j]).filter (fun x => sel.contains x)).map (·.2)).map
+        (Op.relabel (fun q => qs.idxOf q))) ∧
+    (∀ j, qs.length ≤ j → s.timeline j = []) := by
+  intro npts sel qs
+  have hs := getSlice_ok c pts s h
+  refine ⟨fun k o => mem_selected c npts k o, sliceQudits_sorted _, ?_, ?_, ?_, ?_⟩
+  · intro q
+    rw [mem_sliceQudits]
+    constructor
+    · rintro ⟨o, ho, hq⟩
+      rw [List.mem_map] at ho
+      obtain ⟨x, hx, rfl⟩ := ho
+      exact ⟨x, hx, hq⟩
+    · rintro ⟨x, hx, hq⟩
+      exact ⟨x.2, List.mem_map.mpr ⟨x, hx, rfl⟩, hq⟩
+  · rw [hs]; exact subCircuit_radixes _ _
+  · intro j hj
+    rw [hs, subCircuit_timeline c.radixes _ j hj, proj_selected c hinv npts]
+  · intro j hj
+    rw [hs]; exact subCircuit_timeline_off c.radixes _ j hj
+
+/-- the value `batch_pop` returns — compared with the real call's result by the differential — is
+`get_slice` of the same points (same errors, same circuit), so the slice model is exercised by
+every `batch_pop` of the histories -/
+theorem C04_batch_pop_returns_slice (c : Circ) (pts : List (Int × Int)) :
+    (c.batchPop pts).2 = c.getSlice pts :=
+  batchPop_returns_getSlice c pts
+
+-- non-vacuity: points given out of order, one negative, one idle, one duplicate operation; the
+-- CNOT of cycle 1 is not selected, so on qudit 0 the slice holds X (cycle 0) then H (cycle 2)
+example :
+    let c : Circ := ⟨[2, 3, 2], [[⟨1, [], [0], [2]⟩, ⟨3, [], [2], [2]⟩], [⟨6, [], [0, 1], [2, 3]⟩],
+      [⟨2, [], [0], [2]⟩, ⟨7, [], [2, 1], [2, 3]⟩]]⟩
+    c.invB = true ∧
+      c.getSlice [(-1, 0), (0, 0), (2, 1), (2, 2), (1, 2)] =
+        .ok ⟨[2, 3, 2], [[⟨1, [], [0], [2]⟩, ⟨7, [], [2, 1], [2, 3]⟩], [⟨2, [], [0], [2]⟩]]⟩ ∧
+      c.getSlice [(0, 0), (-1, 0)] = .ok ⟨[2], [[⟨1, [], [0], [2]⟩], [⟨2, [], [0], [2]⟩]]⟩ ∧
+      c.getSlice [(-1, 1)] = .ok ⟨[3, 2], [[⟨7, [], [1, 0], [2, 3]⟩]]⟩ ∧
+      c.getSlice [(1, 2)] = .error .index ∧ c.getSlice [(3, 0)] = .error .index := by decide
 
 end BqVerif.C04
